@@ -7,13 +7,20 @@ package main
 import (
 	"context"
 	"fmt"
+	"sync"
 
 	"github.com/samber/ro"
 )
 
 type attachFn func(ctx context.Context, rec *Recorder) ro.Subscription
 
+// lastAttached is the observable handed to the most recent attach call: it lets other case
+// kinds (random chains, kind=prom) reuse a buildFn as a plain operator (see specOperator).
+var lastAttached any
+var attachMu sync.Mutex
+
 func attach[T any](obs ro.Observable[T]) attachFn {
+	lastAttached = obs
 	return func(ctx context.Context, rec *Recorder) ro.Subscription {
 		return obs.SubscribeWithContext(ctx, observer[T](rec))
 	}
@@ -21,13 +28,32 @@ func attach[T any](obs ro.Observable[T]) attachFn {
 
 type buildFn func(p []int, variant string, cbs []Cb, src ro.Observable[int]) (attachFn, error)
 
+// an operator value applied to a source: how to subscribe a recorder to the result, and the
+// resulting observable itself (typed ro.Observable[int] for the chainable operators)
+type applied struct {
+	sub attachFn
+	obs any
+}
+type applyFn func(src ro.Observable[int]) applied
+
+// mkFn builds the operator VALUE once (it may then be applied to several sources: C12)
+type mkFn func(p []int, variant string, cbs []Cb) (applyFn, error)
+
+func opValue[R any](opv func(ro.Observable[int]) ro.Observable[R]) applyFn {
+	return func(src ro.Observable[int]) applied {
+		o := opv(src)
+		return applied{attach(o), o}
+	}
+}
+
 type OpSpec struct {
 	name     string
 	variants []string // "plain", "i", "ctx", "ictx"
 	params   [][]int  // parameter lists to enumerate
 	cbKind   string   // "", "proj", "pred", "boolpred", "red", "key"
-	build    buildFn
-	chain    bool // int -> int, usable inside random chains
+	mk       mkFn
+	chain    bool    // int -> int, usable inside random chains
+	build    buildFn // derived from mk (kept for callers that apply at once)
 }
 
 var v4 = []string{"plain", "i", "ctx", "ictx"}
@@ -44,8 +70,8 @@ func predOp[R any](
 	i func(func(int, int64) bool) func(ro.Observable[int]) ro.Observable[R],
 	c func(func(context.Context, int) (context.Context, bool)) func(ro.Observable[int]) ro.Observable[R],
 	ic func(func(context.Context, int, int64) (context.Context, bool)) func(ro.Observable[int]) ro.Observable[R],
-) buildFn {
-	return func(p []int, variant string, cbs []Cb, src ro.Observable[int]) (attachFn, error) {
+) mkFn {
+	return func(p []int, variant string, cbs []Cb) (applyFn, error) {
 		if len(cbs) != 1 || len(p) != 0 {
 			return nil, errArity("pred")
 		}
@@ -56,25 +82,25 @@ func predOp[R any](
 			if !ok {
 				return nil, errArity(cb.name)
 			}
-			return attach(plain(f)(src)), nil
+			return opValue(plain(f)), nil
 		case "i":
 			f, ok := predI[cb.name]
 			if !ok {
 				return nil, errArity(cb.name)
 			}
-			return attach(i(f)(src)), nil
+			return opValue(i(f)), nil
 		case "ctx":
 			f, ok := predU[cb.name]
 			if !ok {
 				return nil, errArity(cb.name)
 			}
-			return attach(c(func(ctx context.Context, v int) (context.Context, bool) { return tagCtx(ctx, cb.tag), f(v) })(src)), nil
+			return opValue(c(func(ctx context.Context, v int) (context.Context, bool) { return tagCtx(ctx, cb.tag), f(v) })), nil
 		case "ictx":
 			f, ok := predI[cb.name]
 			if !ok {
 				return nil, errArity(cb.name)
 			}
-			return attach(ic(func(ctx context.Context, v int, i int64) (context.Context, bool) { return tagCtx(ctx, cb.tag), f(v, i) })(src)), nil
+			return opValue(ic(func(ctx context.Context, v int, i int64) (context.Context, bool) { return tagCtx(ctx, cb.tag), f(v, i) })), nil
 		}
 		return nil, errArity(variant)
 	}
@@ -86,8 +112,8 @@ func boolPredOp[R any](
 	i func(func(int, int64) bool) func(ro.Observable[int]) ro.Observable[R],
 	c func(func(context.Context, int) bool) func(ro.Observable[int]) ro.Observable[R],
 	ic func(func(context.Context, int, int64) bool) func(ro.Observable[int]) ro.Observable[R],
-) buildFn {
-	return func(p []int, variant string, cbs []Cb, src ro.Observable[int]) (attachFn, error) {
+) mkFn {
+	return func(p []int, variant string, cbs []Cb) (applyFn, error) {
 		if len(cbs) != 1 || len(p) != 0 {
 			return nil, errArity("boolpred")
 		}
@@ -98,18 +124,18 @@ func boolPredOp[R any](
 				return nil, errArity(cb.name)
 			}
 			if variant == "i" {
-				return attach(i(f)(src)), nil
+				return opValue(i(f)), nil
 			}
-			return attach(ic(func(ctx context.Context, v int, i int64) bool { return f(v, i) })(src)), nil
+			return opValue(ic(func(ctx context.Context, v int, i int64) bool { return f(v, i) })), nil
 		}
 		f, ok := predU[cb.name]
 		if !ok {
 			return nil, errArity(cb.name)
 		}
 		if variant == "plain" {
-			return attach(plain(f)(src)), nil
+			return opValue(plain(f)), nil
 		}
-		return attach(c(func(ctx context.Context, v int) bool { return f(v) })(src)), nil
+		return opValue(c(func(ctx context.Context, v int) bool { return f(v) })), nil
 	}
 }
 
@@ -118,8 +144,8 @@ func redOp(
 	i func(func(int, int, int64) int, int) intOp,
 	c func(func(context.Context, int, int) (context.Context, int), int) intOp,
 	ic func(func(context.Context, int, int, int64) (context.Context, int), int) intOp,
-) buildFn {
-	return func(p []int, variant string, cbs []Cb, src ro.Observable[int]) (attachFn, error) {
+) mkFn {
+	return func(p []int, variant string, cbs []Cb) (applyFn, error) {
 		if len(cbs) != 1 || len(p) != 1 {
 			return nil, errArity("red")
 		}
@@ -130,31 +156,31 @@ func redOp(
 				return nil, errArity(cb.name)
 			}
 			if variant == "i" {
-				return attach(i(f, seed)(src)), nil
+				return opValue(i(f, seed)), nil
 			}
-			return attach(ic(func(ctx context.Context, a, v int, i int64) (context.Context, int) { return tagCtx(ctx, cb.tag), f(a, v, i) }, seed)(src)), nil
+			return opValue(ic(func(ctx context.Context, a, v int, i int64) (context.Context, int) { return tagCtx(ctx, cb.tag), f(a, v, i) }, seed)), nil
 		}
 		f, ok := red[cb.name]
 		if !ok {
 			return nil, errArity(cb.name)
 		}
 		if variant == "plain" {
-			return attach(plain(f, seed)(src)), nil
+			return opValue(plain(f, seed)), nil
 		}
-		return attach(c(func(ctx context.Context, a, v int) (context.Context, int) { return tagCtx(ctx, cb.tag), f(a, v) }, seed)(src)), nil
+		return opValue(c(func(ctx context.Context, a, v int) (context.Context, int) { return tagCtx(ctx, cb.tag), f(a, v) }, seed)), nil
 	}
 }
 
-func simple[R any](arity int, mk func(p []int) func(ro.Observable[int]) ro.Observable[R]) buildFn {
-	return func(p []int, variant string, cbs []Cb, src ro.Observable[int]) (attachFn, error) {
+func simple[R any](arity int, mk func(p []int) func(ro.Observable[int]) ro.Observable[R]) mkFn {
+	return func(p []int, variant string, cbs []Cb) (applyFn, error) {
 		if (arity >= 0 && len(p) != arity) || len(cbs) != 0 || variant != "plain" {
 			return nil, errArity("simple")
 		}
-		return attach(mk(p)(src)), nil
+		return opValue(mk(p)), nil
 	}
 }
 
-func buildMap(p []int, variant string, cbs []Cb, src ro.Observable[int]) (attachFn, error) {
+func buildMap(p []int, variant string, cbs []Cb) (applyFn, error) {
 	if len(cbs) != 1 || len(p) != 0 {
 		return nil, errArity("Map")
 	}
@@ -165,22 +191,22 @@ func buildMap(p []int, variant string, cbs []Cb, src ro.Observable[int]) (attach
 			return nil, errArity(cb.name)
 		}
 		if variant == "i" {
-			return attach(ro.MapI(f)(src)), nil
+			return opValue(ro.MapI(f)), nil
 		}
-		return attach(ro.MapIWithContext(func(ctx context.Context, v int, i int64) (context.Context, int) { return tagCtx(ctx, cb.tag), f(v, i) })(src)), nil
+		return opValue(ro.MapIWithContext(func(ctx context.Context, v int, i int64) (context.Context, int) { return tagCtx(ctx, cb.tag), f(v, i) })), nil
 	}
 	f, ok := unary[cb.name]
 	if !ok {
 		return nil, errArity(cb.name)
 	}
 	if variant == "plain" {
-		return attach(ro.Map(f)(src)), nil
+		return opValue(ro.Map(f)), nil
 	}
-	return attach(ro.MapWithContext(func(ctx context.Context, v int) (context.Context, int) { return tagCtx(ctx, cb.tag), f(v) })(src)), nil
+	return opValue(ro.MapWithContext(func(ctx context.Context, v int) (context.Context, int) { return tagCtx(ctx, cb.tag), f(v) })), nil
 }
 
 // MapErr with `errOn k`: user error k when the value equals k
-func buildMapErr(p []int, variant string, cbs []Cb, src ro.Observable[int]) (attachFn, error) {
+func buildMapErr(p []int, variant string, cbs []Cb) (applyFn, error) {
 	if len(cbs) != 1 || len(p) != 1 {
 		return nil, errArity("MapErr")
 	}
@@ -197,25 +223,25 @@ func buildMapErr(p []int, variant string, cbs []Cb, src ro.Observable[int]) (att
 			return nil, errArity(cb.name)
 		}
 		if variant == "i" {
-			return attach(ro.MapErrI(func(v int, i int64) (int, error) { return f(v, i), errOf(v) })(src)), nil
+			return opValue(ro.MapErrI(func(v int, i int64) (int, error) { return f(v, i), errOf(v) })), nil
 		}
-		return attach(ro.MapErrIWithContext(func(ctx context.Context, v int, i int64) (int, context.Context, error) {
+		return opValue(ro.MapErrIWithContext(func(ctx context.Context, v int, i int64) (int, context.Context, error) {
 			return f(v, i), tagCtx(ctx, cb.tag), errOf(v)
-		})(src)), nil
+		})), nil
 	}
 	f, ok := unary[cb.name]
 	if !ok {
 		return nil, errArity(cb.name)
 	}
 	if variant == "plain" {
-		return attach(ro.MapErr(func(v int) (int, error) { return f(v), errOf(v) })(src)), nil
+		return opValue(ro.MapErr(func(v int) (int, error) { return f(v), errOf(v) })), nil
 	}
-	return attach(ro.MapErrWithContext(func(ctx context.Context, v int) (int, context.Context, error) {
+	return opValue(ro.MapErrWithContext(func(ctx context.Context, v int) (int, context.Context, error) {
 		return f(v), tagCtx(ctx, cb.tag), errOf(v)
-	})(src)), nil
+	})), nil
 }
 
-func buildDistinctBy(p []int, variant string, cbs []Cb, src ro.Observable[int]) (attachFn, error) {
+func buildDistinctBy(p []int, variant string, cbs []Cb) (applyFn, error) {
 	if len(cbs) != 1 || len(p) != 0 {
 		return nil, errArity("DistinctBy")
 	}
@@ -226,14 +252,14 @@ func buildDistinctBy(p []int, variant string, cbs []Cb, src ro.Observable[int]) 
 	}
 	switch variant {
 	case "plain":
-		return attach(ro.DistinctBy(f)(src)), nil
+		return opValue(ro.DistinctBy(f)), nil
 	case "ctx":
-		return attach(ro.DistinctByWithContext(func(ctx context.Context, v int) (context.Context, int) { return tagCtx(ctx, cb.tag), f(v) })(src)), nil
+		return opValue(ro.DistinctByWithContext(func(ctx context.Context, v int) (context.Context, int) { return tagCtx(ctx, cb.tag), f(v) })), nil
 	}
 	return nil, errArity(variant)
 }
 
-func buildToMap(p []int, variant string, cbs []Cb, src ro.Observable[int]) (attachFn, error) {
+func buildToMap(p []int, variant string, cbs []Cb) (applyFn, error) {
 	if len(cbs) != 1 || len(p) != 0 {
 		return nil, errArity("ToMap")
 	}
@@ -243,13 +269,13 @@ func buildToMap(p []int, variant string, cbs []Cb, src ro.Observable[int]) (atta
 	}
 	switch variant {
 	case "plain":
-		return attach(ro.ToMap(func(v int) (int, int) { return f(v), v })(src)), nil
+		return opValue(ro.ToMap(func(v int) (int, int) { return f(v), v })), nil
 	case "i":
-		return attach(ro.ToMapI(func(v int, _ int64) (int, int) { return f(v), v })(src)), nil
+		return opValue(ro.ToMapI(func(v int, _ int64) (int, int) { return f(v), v })), nil
 	case "ctx":
-		return attach(ro.ToMapWithContext(func(_ context.Context, v int) (int, int) { return f(v), v })(src)), nil
+		return opValue(ro.ToMapWithContext(func(_ context.Context, v int) (int, int) { return f(v), v })), nil
 	case "ictx":
-		return attach(ro.ToMapIWithContext(func(_ context.Context, v int, _ int64) (int, int) { return f(v), v })(src)), nil
+		return opValue(ro.ToMapIWithContext(func(_ context.Context, v int, _ int64) (int, int) { return f(v), v })), nil
 	}
 	return nil, errArity(variant)
 }
@@ -266,26 +292,26 @@ var opSpecs []OpSpec
 func init() {
 	opSpecs = []OpSpec{
 		// operator_filter.go
-		{"Filter", v4, [][]int{{}}, "pred", predOp(ro.Filter[int], ro.FilterI[int], ro.FilterWithContext[int], ro.FilterIWithContext[int]), true},
-		{"Distinct", v1, [][]int{{}}, "", simple(0, func(p []int) intOp { return ro.Distinct[int]() }), true},
-		{"DistinctBy", []string{"plain", "ctx"}, [][]int{{}}, "key", buildDistinctBy, true},
-		{"IgnoreElements", v1, [][]int{{}}, "", simple(0, func(p []int) intOp { return ro.IgnoreElements[int]() }), true},
-		{"Skip", v1, [][]int{{0}, {1}, {2}, {3}, {5}}, "", simple(1, func(p []int) intOp { return ro.Skip[int](int64(p[0])) }), true},
-		{"SkipWhile", v4, [][]int{{}}, "pred", predOp(ro.SkipWhile[int], ro.SkipWhileI[int], ro.SkipWhileWithContext[int], ro.SkipWhileIWithContext[int]), true},
-		{"SkipLast", v1, [][]int{{1}, {2}, {3}, {5}}, "", simple(1, func(p []int) intOp { return ro.SkipLast[int](p[0]) }), true},
-		{"Take", v1, [][]int{{0}, {1}, {2}, {3}, {5}}, "", simple(1, func(p []int) intOp { return ro.Take[int](int64(p[0])) }), true},
-		{"TakeWhile", v4, [][]int{{}}, "pred", predOp(ro.TakeWhile[int], ro.TakeWhileI[int], ro.TakeWhileWithContext[int], ro.TakeWhileIWithContext[int]), true},
-		{"TakeLast", v1, [][]int{{0}, {1}, {2}, {3}, {5}}, "", simple(1, func(p []int) intOp { return ro.TakeLast[int](p[0]) }), true},
-		{"Head", v1, [][]int{{}}, "", simple(0, func(p []int) intOp { return ro.Head[int]() }), true},
-		{"Tail", v1, [][]int{{}}, "", simple(0, func(p []int) intOp { return ro.Tail[int]() }), true},
-		{"First", v4, [][]int{{}}, "pred", predOp(ro.First[int], ro.FirstI[int], ro.FirstWithContext[int], ro.FirstIWithContext[int]), true},
-		{"Last", v4, [][]int{{}}, "pred", predOp(ro.Last[int], ro.LastI[int], ro.LastWithContext[int], ro.LastIWithContext[int]), true},
-		{"ElementAt", v1, [][]int{{0}, {1}, {2}, {4}}, "", simple(1, func(p []int) intOp { return ro.ElementAt[int](p[0]) }), true},
-		{"ElementAtOrDefault", v1, [][]int{{0, 9}, {1, 9}, {2, 9}, {4, 9}}, "", simple(2, func(p []int) intOp { return ro.ElementAtOrDefault(int64(p[0]), p[1]) }), true},
+		{"Filter", v4, [][]int{{}}, "pred", predOp(ro.Filter[int], ro.FilterI[int], ro.FilterWithContext[int], ro.FilterIWithContext[int]), true, nil},
+		{"Distinct", v1, [][]int{{}}, "", simple(0, func(p []int) intOp { return ro.Distinct[int]() }), true, nil},
+		{"DistinctBy", []string{"plain", "ctx"}, [][]int{{}}, "key", buildDistinctBy, true, nil},
+		{"IgnoreElements", v1, [][]int{{}}, "", simple(0, func(p []int) intOp { return ro.IgnoreElements[int]() }), true, nil},
+		{"Skip", v1, [][]int{{0}, {1}, {2}, {3}, {5}}, "", simple(1, func(p []int) intOp { return ro.Skip[int](int64(p[0])) }), true, nil},
+		{"SkipWhile", v4, [][]int{{}}, "pred", predOp(ro.SkipWhile[int], ro.SkipWhileI[int], ro.SkipWhileWithContext[int], ro.SkipWhileIWithContext[int]), true, nil},
+		{"SkipLast", v1, [][]int{{1}, {2}, {3}, {5}}, "", simple(1, func(p []int) intOp { return ro.SkipLast[int](p[0]) }), true, nil},
+		{"Take", v1, [][]int{{0}, {1}, {2}, {3}, {5}}, "", simple(1, func(p []int) intOp { return ro.Take[int](int64(p[0])) }), true, nil},
+		{"TakeWhile", v4, [][]int{{}}, "pred", predOp(ro.TakeWhile[int], ro.TakeWhileI[int], ro.TakeWhileWithContext[int], ro.TakeWhileIWithContext[int]), true, nil},
+		{"TakeLast", v1, [][]int{{0}, {1}, {2}, {3}, {5}}, "", simple(1, func(p []int) intOp { return ro.TakeLast[int](p[0]) }), true, nil},
+		{"Head", v1, [][]int{{}}, "", simple(0, func(p []int) intOp { return ro.Head[int]() }), true, nil},
+		{"Tail", v1, [][]int{{}}, "", simple(0, func(p []int) intOp { return ro.Tail[int]() }), true, nil},
+		{"First", v4, [][]int{{}}, "pred", predOp(ro.First[int], ro.FirstI[int], ro.FirstWithContext[int], ro.FirstIWithContext[int]), true, nil},
+		{"Last", v4, [][]int{{}}, "pred", predOp(ro.Last[int], ro.LastI[int], ro.LastWithContext[int], ro.LastIWithContext[int]), true, nil},
+		{"ElementAt", v1, [][]int{{0}, {1}, {2}, {4}}, "", simple(1, func(p []int) intOp { return ro.ElementAt[int](p[0]) }), true, nil},
+		{"ElementAtOrDefault", v1, [][]int{{0, 9}, {1, 9}, {2, 9}, {4, 9}}, "", simple(2, func(p []int) intOp { return ro.ElementAtOrDefault(int64(p[0]), p[1]) }), true, nil},
 		// operator_transformations.go
-		{"Map", v4, [][]int{{}}, "proj", buildMap, true},
-		{"MapTo", v1, [][]int{{7}}, "", simple(1, func(p []int) intOp { return ro.MapTo[int](p[0]) }), true},
-		{"MapErr", v4, [][]int{{2}, {0}, {8}}, "proj", buildMapErr, true},
+		{"Map", v4, [][]int{{}}, "proj", buildMap, true, nil},
+		{"MapTo", v1, [][]int{{7}}, "", simple(1, func(p []int) intOp { return ro.MapTo[int](p[0]) }), true, nil},
+		{"MapErr", v4, [][]int{{2}, {0}, {8}}, "proj", buildMapErr, true, nil},
 		{"Flatten", v1, [][]int{{0}, {1}, {2}}, "", simple(1, func(p []int) intOp {
 			k := p[0]
 			return func(src ro.Observable[int]) ro.Observable[int] {
@@ -297,47 +323,97 @@ func init() {
 					return out
 				})(src))
 			}
-		}), false},
-		{"Scan", v4, [][]int{{0}, {1}}, "red", redOp(ro.Scan[int, int], ro.ScanI[int, int], ro.ScanWithContext[int, int], ro.ScanIWithContext[int, int]), true},
-		{"BufferWithCount", v1, [][]int{{1}, {2}, {3}}, "", simple(1, func(p []int) func(ro.Observable[int]) ro.Observable[[]int] { return ro.BufferWithCount[int](p[0]) }), false},
-		{"Pairwise", v1, [][]int{{}}, "", simple(0, func(p []int) func(ro.Observable[int]) ro.Observable[[]int] { return ro.Pairwise[int]() }), false},
-		{"StartWith", v1, [][]int{{}, {8}, {8, 9}}, "", simple(-1, func(p []int) intOp { return ro.StartWith(p...) }), true},
-		{"EndWith", v1, [][]int{{}, {8}, {8, 9}}, "", simple(-1, func(p []int) intOp { return ro.EndWith(p...) }), true},
-		{"Tap", v1, [][]int{{}}, "", simple(0, func(p []int) intOp { return ro.Tap(nopV, nopE, nop) }), true},
-		{"TapOnSubscribe", v1, [][]int{{}}, "", simple(0, func(p []int) intOp { return ro.TapOnSubscribe[int](nop) }), true},
-		{"TapOnFinalize", v1, [][]int{{}}, "", simple(0, func(p []int) intOp { return ro.TapOnFinalize[int](nop) }), true},
-		{"Serialize", v1, [][]int{{}}, "", simple(0, func(p []int) intOp { return ro.Serialize[int]() }), true},
-		{"OnErrorReturn", v1, [][]int{{9}}, "", simple(1, func(p []int) intOp { return ro.OnErrorReturn(p[0]) }), true},
+		}), false, nil},
+		{"Scan", v4, [][]int{{0}, {1}}, "red", redOp(ro.Scan[int, int], ro.ScanI[int, int], ro.ScanWithContext[int, int], ro.ScanIWithContext[int, int]), true, nil},
+		{"BufferWithCount", v1, [][]int{{1}, {2}, {3}}, "", simple(1, func(p []int) func(ro.Observable[int]) ro.Observable[[]int] { return ro.BufferWithCount[int](p[0]) }), false, nil},
+		{"Pairwise", v1, [][]int{{}}, "", simple(0, func(p []int) func(ro.Observable[int]) ro.Observable[[]int] { return ro.Pairwise[int]() }), false, nil},
+		{"StartWith", v1, [][]int{{}, {8}, {8, 9}}, "", simple(-1, func(p []int) intOp { return ro.StartWith(p...) }), true, nil},
+		{"EndWith", v1, [][]int{{}, {8}, {8, 9}}, "", simple(-1, func(p []int) intOp { return ro.EndWith(p...) }), true, nil},
+		{"Tap", v1, [][]int{{}}, "", simple(0, func(p []int) intOp { return ro.Tap(nopV, nopE, nop) }), true, nil},
+		{"TapOnSubscribe", v1, [][]int{{}}, "", simple(0, func(p []int) intOp { return ro.TapOnSubscribe[int](nop) }), true, nil},
+		{"TapOnFinalize", v1, [][]int{{}}, "", simple(0, func(p []int) intOp { return ro.TapOnFinalize[int](nop) }), true, nil},
+		{"Serialize", v1, [][]int{{}}, "", simple(0, func(p []int) intOp { return ro.Serialize[int]() }), true, nil},
+		{"OnErrorReturn", v1, [][]int{{9}}, "", simple(1, func(p []int) intOp { return ro.OnErrorReturn(p[0]) }), true, nil},
 		{"ThrowIfEmpty", v1, [][]int{{4}}, "", simple(1, func(p []int) intOp {
 			return ro.ThrowIfEmpty[int](func() error { return userErr{p[0]} })
-		}), true},
-		{"Materialize", v1, [][]int{{}}, "", simple(0, func(p []int) func(ro.Observable[int]) ro.Observable[ro.Notification[int]] { return ro.Materialize[int]() }), false},
+		}), true, nil},
+		{"Materialize", v1, [][]int{{}}, "", simple(0, func(p []int) func(ro.Observable[int]) ro.Observable[ro.Notification[int]] { return ro.Materialize[int]() }), false, nil},
 		{"MaterializeDematerialize", v1, [][]int{{}}, "", simple(0, func(p []int) intOp {
 			return func(src ro.Observable[int]) ro.Observable[int] { return ro.Dematerialize[int]()(ro.Materialize[int]()(src)) }
-		}), true},
-		{"ToSlice", v1, [][]int{{}}, "", simple(0, func(p []int) func(ro.Observable[int]) ro.Observable[[]int] { return ro.ToSlice[int]() }), false},
-		{"ToMap", v4, [][]int{{}}, "key", buildToMap, false},
+		}), true, nil},
+		{"ToSlice", v1, [][]int{{}}, "", simple(0, func(p []int) func(ro.Observable[int]) ro.Observable[[]int] { return ro.ToSlice[int]() }), false, nil},
+		{"ToMap", v4, [][]int{{}}, "key", buildToMap, false, nil},
 		// operator_conditional.go / operator_math.go
-		{"All", v4, [][]int{{}}, "boolpred", boolPredOp(ro.All[int], ro.AllI[int], ro.AllWithContext[int], ro.AllIWithContext[int]), false},
-		{"Contains", v4, [][]int{{}}, "boolpred", boolPredOp(ro.Contains[int], ro.ContainsI[int], ro.ContainsWithContext[int], ro.ContainsIWithContext[int]), false},
-		{"Find", v4, [][]int{{}}, "boolpred", boolPredOp(ro.Find[int], ro.FindI[int], ro.FindWithContext[int], ro.FindIWithContext[int]), true},
-		{"DefaultIfEmpty", v1, [][]int{{9}}, "", simple(1, func(p []int) intOp { return ro.DefaultIfEmpty(p[0]) }), true},
+		{"All", v4, [][]int{{}}, "boolpred", boolPredOp(ro.All[int], ro.AllI[int], ro.AllWithContext[int], ro.AllIWithContext[int]), false, nil},
+		{"Contains", v4, [][]int{{}}, "boolpred", boolPredOp(ro.Contains[int], ro.ContainsI[int], ro.ContainsWithContext[int], ro.ContainsIWithContext[int]), false, nil},
+		{"Find", v4, [][]int{{}}, "boolpred", boolPredOp(ro.Find[int], ro.FindI[int], ro.FindWithContext[int], ro.FindIWithContext[int]), true, nil},
+		{"DefaultIfEmpty", v1, [][]int{{9}}, "", simple(1, func(p []int) intOp { return ro.DefaultIfEmpty(p[0]) }), true, nil},
 		{"DefaultIfEmptyWithContext", v1, [][]int{{9, 5}}, "", simple(2, func(p []int) intOp {
 			return ro.DefaultIfEmptyWithContext(ctxFromMarks([]int{p[1]}), p[0])
-		}), true},
-		{"Count", v1, [][]int{{}}, "", simple(0, func(p []int) func(ro.Observable[int]) ro.Observable[int64] { return ro.Count[int]() }), false},
-		{"Sum", v1, [][]int{{}}, "", simple(0, func(p []int) intOp { return ro.Sum[int]() }), true},
-		{"Min", v1, [][]int{{}}, "", simple(0, func(p []int) intOp { return ro.Min[int]() }), true},
-		{"Max", v1, [][]int{{}}, "", simple(0, func(p []int) intOp { return ro.Max[int]() }), true},
-		{"Clamp", v1, [][]int{{0, 1}, {-1, 2}, {1, 1}}, "", simple(2, func(p []int) intOp { return ro.Clamp(p[0], p[1]) }), true},
-		{"Reduce", v4, [][]int{{0}, {1}}, "red", redOp(ro.Reduce[int, int], ro.ReduceI[int, int], ro.ReduceWithContext[int, int], ro.ReduceIWithContext[int, int]), true},
+		}), true, nil},
+		{"Count", v1, [][]int{{}}, "", simple(0, func(p []int) func(ro.Observable[int]) ro.Observable[int64] { return ro.Count[int]() }), false, nil},
+		{"Sum", v1, [][]int{{}}, "", simple(0, func(p []int) intOp { return ro.Sum[int]() }), true, nil},
+		{"Min", v1, [][]int{{}}, "", simple(0, func(p []int) intOp { return ro.Min[int]() }), true, nil},
+		{"Max", v1, [][]int{{}}, "", simple(0, func(p []int) intOp { return ro.Max[int]() }), true, nil},
+		{"Clamp", v1, [][]int{{0, 1}, {-1, 2}, {1, 1}}, "", simple(2, func(p []int) intOp { return ro.Clamp(p[0], p[1]) }), true, nil},
+		{"Reduce", v4, [][]int{{0}, {1}}, "red", redOp(ro.Reduce[int, int], ro.ReduceI[int, int], ro.ReduceWithContext[int, int], ro.ReduceIWithContext[int, int]), true, nil},
 	}
+}
+
+func deriveBuild(specs []OpSpec) {
+	for i := range specs {
+		mk := specs[i].mk
+		specs[i].build = func(p []int, variant string, cbs []Cb, src ro.Observable[int]) (attachFn, error) {
+			ap, err := mk(p, variant, cbs)
+			if err != nil {
+				return nil, err
+			}
+			return ap(src).sub, nil
+		}
+	}
+}
+
+func init() {
+	opSpecs = append(opSpecs, moreOpSpecs()...) // more.go: the operators of lean/RoModel/Ops/More.lean
+	extraOpSpecs = append(extraOpSpecs, moreExtraOpSpecs()...)
+	deriveBuild(opSpecs)
+	deriveBuild(extraOpSpecs)
+}
+
+// extraOpSpecs: operators that can be run by name (kind=op replay, the `opsmore` generator of more.go)
+// but are NOT enumerated by the generators that walk opSpecs (ops, chains, reuse, cancel): operators whose
+// documented behaviour is outside the oracle of a property that shares those runs (ContextReset replaces
+// the context by definition, so C09's "subscription marker present" oracle does not apply to it).
+var extraOpSpecs []OpSpec
+
+// specOperator turns a `chain: true` (int -> int) entry into the real operator function
+// (used by kinds that hand operators to other library functions, e.g. the ee PipeN of kind=prom).
+func specOperator(spec *OpSpec, p []int, variant string, cbs []Cb) (intOp, error) {
+	if !spec.chain {
+		return nil, fmt.Errorf("%s: not an int->int operator", spec.name)
+	}
+	ap, err := spec.mk(p, variant, cbs)
+	if err != nil {
+		return nil, err
+	}
+	return func(src ro.Observable[int]) ro.Observable[int] {
+		out, ok := ap(src).obs.(ro.Observable[int])
+		if !ok {
+			return ro.Throw[int](fmt.Errorf("%s: not an int observable", spec.name))
+		}
+		return out
+	}, nil
 }
 
 func findOp(name string) *OpSpec {
 	for i := range opSpecs {
 		if opSpecs[i].name == name {
 			return &opSpecs[i]
+		}
+	}
+	for i := range extraOpSpecs {
+		if extraOpSpecs[i].name == name {
+			return &extraOpSpecs[i]
 		}
 	}
 	return nil
@@ -368,6 +444,8 @@ func cbChoices(kind, variant string) []string {
 		return []string{"add", "mad"}
 	case "key":
 		return []string{"mod2", "id", "sq"}
+	case "ctag": // ContextMap / ContextMapI: the projection adds marker t (plain) or t+index (i)
+		return []string{"ctag+t50", "ctag+t53"}
 	}
 	return nil
 }
